@@ -26,6 +26,7 @@ type Opts struct {
 	NoRawSubst       bool // templated patterns never substitute raw rule data / never fail on data
 	NoBadFailover    bool // failover URIs are always parsable
 	NoBadLinkRewrite bool // link{uri=...} rewrites always give a parsable URL
+	NoEmptyRangeMax  bool // range_query{max} is never the empty string
 }
 
 // OptUse records one emitted option.
@@ -168,8 +169,21 @@ func (x *g) pick(pool []string, l string) string {
 }
 
 // regex draws a plain (non templated) regexp option.
+// emptyEdge: the empty string is the classic value that "if v != \"\"" style
+// validation lets through; it is drawn at a fixed small rate of its own.
+func (x *g) emptyEdge(path string) bool {
+	if x.coin(2) {
+		x.use(path, "empty", "")
+		return true
+	}
+	return false
+}
+
 func (x *g) regex(path string) string {
 	x.cfg.HasRegexOpt = true
+	if x.emptyEdge(path) {
+		return ""
+	}
 	if x.invalid() {
 		v := x.pick(reInvalid, "reinv")
 		x.use(path, "invalid", v)
@@ -243,6 +257,9 @@ func (x *g) tregex(path string) string {
 }
 
 func (x *g) duration(path string) string {
+	if x.emptyEdge(path) {
+		return ""
+	}
 	if x.invalid() {
 		v := x.pick(durInvalid, "durinv")
 		x.use(path, "invalid", v)
@@ -257,6 +274,9 @@ func (x *g) duration(path string) string {
 // is kept small so that pint does not slice a query into thousands of
 // rate-limited requests (a matter of time, not of crashing).
 func (x *g) qdur(path string, pool []string) string {
+	if x.emptyEdge(path) {
+		return ""
+	}
 	if x.invalid() {
 		v := x.pick(durInvalid, "durinv")
 		x.use(path, "invalid", v)
@@ -268,6 +288,9 @@ func (x *g) qdur(path string, pool []string) string {
 }
 
 func (x *g) severity(path string) string {
+	if x.emptyEdge(path) {
+		return ""
+	}
 	if x.invalid() {
 		v := x.pick(sevInvalid, "sevinv")
 		x.use(path, "invalid", v)
@@ -595,6 +618,10 @@ func (x *g) ruleBlock() *Block {
 			if !(x.invalid() && x.chance(1, 2)) {
 				d := x.duration("rule.range_query.max")
 				if d == "0s" && !x.invalid() {
+					d = "4h"
+				}
+				if d == "" && x.o.NoEmptyRangeMax {
+					x.excl("NoEmptyRangeMax")
 					d = "4h"
 				}
 				b.Set("max", x.str("rule.range_query.max", d))
